@@ -1,3 +1,93 @@
-import OptreeModel.Model.Eval
+/-
+  C01  Flatten then unflatten reconstructs the same tree.
+
+  Property theorems only (helper lemmas: Lemmas/Roundtrip.lean, Lemmas/Dict.lean, Lemmas/Sort.lean).
+  Quantification: every `PyObj` (all node kinds, any nesting), every `Cfg` (none_is_leaf, namespace,
+  registry, insertion-ordered set, any predicate — even a partial one — any depth limit).
+  Equality of `PyObj` terms *is* "same container type at every node, same keys in the same
+  (insertion) order, same class / maxlen / factory / metadata, identical leaves at the same positions".
+-/
+import OptreeModel.Lemmas.Roundtrip
+
 namespace Optree
+
+/-- the treespec produced by `flatten` passes the engine's sanity check -/
+theorem C01_flatten_sane (cfg : Cfg) (t : PyObj) (ls : List PyObj) (sp : Spec)
+    (h : flatten cfg t = .ok (ls, sp)) : sp.sane = true ∧ sp.numLeaves = ls.length := by
+  unfold flatten at h
+  simp only at h
+  split at h
+  · simp at h
+  · rename_i out hout
+    simp only [Except.ok.injEq, Prod.mk.injEq] at h
+    obtain ⟨hl, hs⟩ := h
+    subst hl hs
+    obtain ⟨n, h1, h2, h3⟩ := flattenGo_sane cfg _ 0 t out hout
+    simp [Spec.sane, Spec.numLeaves, h1, h2, h3]
+
+/-- **Round trip.**  If flattening succeeds, unflattening the treespec with the returned leaves
+rebuilds exactly the original tree.  Hypotheses: dict keys are pairwise distinct, deques respect
+their `maxlen`, registered flatten functions are well-behaved (`wf`), and the registry files every
+registration under its own class (`Registry.OK`). -/
+theorem C01_roundtrip (cfg : Cfg) (hreg : cfg.reg.OK) (t : PyObj) (hwf : t.wf = true)
+    (ls : List PyObj) (sp : Spec) (h : flatten cfg t = .ok (ls, sp)) :
+    unflatten sp ls = .ok t := by
+  have hs := (C01_flatten_sane cfg t ls sp h).1
+  unfold flatten at h
+  simp only at h
+  split at h
+  · simp at h
+  · rename_i out hout
+    simp only [Except.ok.injEq, Prod.mk.injEq] at h
+    obtain ⟨hl, hsp⟩ := h
+    subst hl
+    have hrt := pobj cfg hreg _ t hwf 0 out hout [] [] []
+    unfold unflatten
+    simp only [hs, Bool.not_true, Bool.false_eq_true, if_false]
+    have hn : sp.nodes = out.nodes := by rw [← hsp]
+    rw [hn]
+    simpa [unflattenGo] using hrt
+
+/-- Flattening the rebuilt tree again yields the identical leaves and the identical treespec. -/
+theorem C01_reflatten (cfg : Cfg) (hreg : cfg.reg.OK) (t : PyObj) (hwf : t.wf = true)
+    (ls : List PyObj) (sp : Spec) (h : flatten cfg t = .ok (ls, sp)) (t' : PyObj)
+    (h' : unflatten sp ls = .ok t') : flatten cfg t' = .ok (ls, sp) := by
+  rw [C01_roundtrip cfg hreg t hwf ls sp h] at h'
+  cases h'
+  exact h
+
+/-- The machine-level statement behind the round trip: running `unflattenGo` over the records and
+leaves produced for `t`, in the middle of any larger run, pushes exactly `t`. -/
+theorem C01_machine (cfg : Cfg) (hreg : cfg.reg.OK) (sorted : Bool) (t : PyObj) (hwf : t.wf = true)
+    (d : Nat) (out : FlatOut) (h : flattenGo cfg sorted d t = .ok out)
+    (rest : List Node) (ls stack : List PyObj) :
+    unflattenGo (out.nodes ++ rest) (out.leaves ++ ls) stack = unflattenGo rest ls (t :: stack) := by
+  simpa using pobj cfg hreg sorted t hwf d out h rest ls stack
+
+/-! ### non-vacuity: concrete, non-trivial instances satisfy the hypotheses -/
+
+def C01_demoReg : Registry :=
+  { global := [(0, 0, { rid := 1, cls := 0, clsKind := 0, entryKind := .auto, mode := .named })]
+    named := [("a", 2, 0, { rid := 2, cls := 2, clsKind := 0, entryKind := .getitem, mode := .shifted })] }
+
+def C01_demoTree : PyObj :=
+  .tuple [.leaf 0 1,
+          .dict [(.str "b", .leaf 0 2), (.int 3, .list [.leaf 0 3, .none]), (.str "a", .deque (some 2) [.leaf 0 4])],
+          .user 0 (some (.int 5)) .ok [.leaf 0 6, .ddict (some 1) [(.tup [1], .leaf 0 7)]],
+          .ntuple 0 [.leaf 0 8, .odict [(.obj "vk.KU" false 0 1, .leaf 0 9)]]]
+
+example : C01_demoTree.wf = true := by decide
+
+example : (C01_demoReg).OK := Registry.OK_of_okB _ (by decide)
+
+/-- the demo tree flattens (mixed int/str keys: stage-2 order), and the round trip closes -/
+example :
+    (match flatten { reg := C01_demoReg } C01_demoTree with
+     | .ok (ls, sp) =>
+        ls.length == 8 &&
+        (match unflatten sp ls with
+         | .ok t' => t' == C01_demoTree
+         | .error _ => false)
+     | .error _ => false) = true := by decide
+
 end Optree
